@@ -69,6 +69,88 @@ func isConnWrite(in ssa.Instruction, conn ssa.Value) bool {
 	return false
 }
 
+// connWriteSummary: for a first-party helper with a net.Conn parameter, the set of possible numbers of Write calls on
+// that parameter over all paths ("1" = exactly once on every path). Helpers are analysed with the same counting flow.
+func (c *C) connWriteSummary(fn *ssa.Function, depth int) (Set, *ssa.Parameter) {
+	p := connParam(fn)
+	if p == nil || fn.Blocks == nil || depth > 3 {
+		return nil, nil
+	}
+	tr := func(in ssa.Instruction, s Set) (Set, bool) {
+		if noReturnCall(in) {
+			return nil, true
+		}
+		add := func(k int) {
+			n := Set{}
+			for st := range s {
+				w := int(st[0]-'0') + k
+				if w > 2 {
+					w = 2
+				}
+				n[fmt.Sprint(w)] = true
+			}
+			s = n
+		}
+		if isConnWrite(in, p) {
+			add(1)
+		} else if ci, ok := in.(*ssa.Call); ok {
+			if cf := callee(ci); cf != nil && firstParty(cf) && pkgRel(cf) == "server" {
+				if sum, cp := c.connWriteSummary(cf, depth+1); sum != nil {
+					for i, a := range ci.Call.Args {
+						if a == ssa.Value(p) && cf.Params[i] == cp {
+							// conservative: only the exactly-once helper is composed
+							if len(sum) == 1 && sum["1"] {
+								add(1)
+							} else if !(len(sum) == 1 && sum["0"]) {
+								add(2)
+							}
+						}
+					}
+				}
+			}
+		}
+		return s, false
+	}
+	fl := &Flow{Fn: fn, Must: false, Entry: Set{"0": true}, Transfer: tr}
+	fl.Run()
+	out := Set{}
+	for _, b := range fn.Blocks {
+		if len(b.Instrs) == 0 {
+			continue
+		}
+		if ret, ok := b.Instrs[len(b.Instrs)-1].(*ssa.Return); ok {
+			if s, live := fl.Before(ret); live {
+				for k := range s {
+					out[k] = true
+				}
+			}
+		}
+	}
+	return out, p
+}
+
+// callsTransitively: fn (or a first-party callee, depth <= 2) calls target.
+func callsTransitively(fn, target *ssa.Function, depth int) bool {
+	if fn == nil || fn.Blocks == nil || depth > 2 {
+		return false
+	}
+	for _, b := range fn.Blocks {
+		for _, in := range b.Instrs {
+			if ci, ok := in.(ssa.CallInstruction); ok {
+				if cf := callee(ci); cf != nil {
+					if cf == target {
+						return true
+					}
+					if firstParty(cf) && callsTransitively(cf, target, depth+1) {
+						return true
+					}
+				}
+			}
+		}
+	}
+	return false
+}
+
 var rR8 = RuleRef{Name: "R8", Doc: "exactly one reply write per command: on every path of a connection loop iteration that extracted a command (ArrayData.ToCommand) the handler's own conn.Write is called exactly once before the next iteration, never from a spawned goroutine; executors never write to their conn themselves (it may only be handed to the Pub/Sub subscriber table)", Run: func(c *C) {
 	hs := c.connHandlers()
 	c.Count("R8_connection_handlers", len(hs))
@@ -85,6 +167,7 @@ var rR8 = RuleRef{Name: "R8", Doc: "exactly one reply write per command: on ever
 		}
 		var sel *ssa.Select
 		nWrites := 0
+		nWritesViaHelper := 0
 		for _, b := range fn.Blocks {
 			for _, in := range b.Instrs {
 				if s, ok := in.(*ssa.Select); ok && sel == nil {
@@ -99,7 +182,6 @@ var rR8 = RuleRef{Name: "R8", Doc: "exactly one reply write per command: on ever
 			c.Undecided("R8", "connection loop (select) of "+fnName(fn))
 			continue
 		}
-		c.Count("R8_write_sites", nWrites)
 		tr := func(in ssa.Instruction, s Set) (Set, bool) {
 			if noReturnCall(in) {
 				return nil, true
@@ -107,12 +189,40 @@ var rR8 = RuleRef{Name: "R8", Doc: "exactly one reply write per command: on ever
 			if in == ssa.Instruction(sel) {
 				return Set{"c0w0": true}, false
 			}
-			if call, ok := in.(*ssa.Call); ok && callee(call) == toCmd && toCmd != nil {
-				n := Set{}
-				for st := range s {
-					n["c1"+st[2:]] = true
+			if call, ok := in.(*ssa.Call); ok && toCmd != nil {
+				if cf := callee(call); cf == toCmd || (cf != nil && firstParty(cf) && pkgRel(cf) == "server" && callsTransitively(cf, toCmd, 0)) {
+					n := Set{}
+					for st := range s {
+						n["c1"+st[2:]] = true
+					}
+					s = n
+					if cf == toCmd {
+						return s, false
+					}
 				}
-				return n, false
+			}
+			// a helper that writes to this connection: composed through its write-count summary
+			if call, ok := in.(*ssa.Call); ok {
+				if cf := callee(call); cf != nil && firstParty(cf) && pkgRel(cf) == "server" && !isDispatcherParent(c, cf) {
+					if sum, cp := c.connWriteSummary(cf, 0); sum != nil {
+						for i, a := range call.Call.Args {
+							if i < len(cf.Params) && cf.Params[i] == cp && (a == ssa.Value(conn) || isConnLoad(a, conn)) {
+								n := Set{}
+								for st := range s {
+									for k := range sum {
+										w := int(st[3]-'0') + int(k[0]-'0')
+										if w > 2 {
+											w = 2
+										}
+										n[fmt.Sprintf("%sw%d", st[:2], w)] = true
+									}
+								}
+								nWritesViaHelper++
+								return n, false
+							}
+						}
+					}
+				}
 			}
 			if isConnWrite(in, conn) {
 				n := Set{}
@@ -129,6 +239,10 @@ var rR8 = RuleRef{Name: "R8", Doc: "exactly one reply write per command: on ever
 		}
 		fl := &Flow{Fn: fn, Must: false, Entry: Set{"c0w0": true}, Transfer: tr}
 		fl.Run()
+		if nWritesViaHelper > 0 {
+			nWritesViaHelper = 1
+		}
+		c.Count("R8_write_sites", nWrites+nWritesViaHelper)
 		s, live := fl.Before(sel)
 		var bad []string
 		if live {
@@ -172,9 +286,29 @@ var rR8 = RuleRef{Name: "R8", Doc: "exactly one reply write per command: on ever
 		if isH[fn] {
 			continue
 		}
+		// a reply helper: every caller is a connection handler passing its own connection
+		helperOK := connParam(fn) != nil && fn.Parent() == nil
+		if helperOK {
+			ncall := 0
+			for _, g := range c.P.allFuncs("server") {
+				for _, b := range g.Blocks {
+					for _, in := range b.Instrs {
+						if ci, ok := in.(ssa.CallInstruction); ok && callee(ci) == fn {
+							ncall++
+							if _, isGo := in.(*ssa.Go); isGo || !isH[g] {
+								helperOK = false
+							}
+						}
+					}
+				}
+			}
+			if ncall == 0 {
+				helperOK = false
+			}
+		}
 		for _, b := range fn.Blocks {
 			for _, in := range b.Instrs {
-				if isConnWrite(in, nil) {
+				if isConnWrite(in, nil) && !(helperOK && isConnWrite(in, connParam(fn))) {
 					others = append(others, c.pos(in.Pos())+" in "+fnName(fn))
 				}
 			}
@@ -264,106 +398,227 @@ func firstUseOfClosure(parent, cl *ssa.Function) ssa.Instruction {
 	return nil
 }
 
-// R12 (connection-loop part): a protocol error closes the connection without executing anything; only arrays reach dispatch.
-var rR12c = RuleRef{Name: "R12c", Doc: "connection loops: the branch taken when the parser reports an error reaches return (deferred conn.Close) without passing a dispatch point and without starting another iteration; every dispatch point (executor dispatch call, proposal send) is dominated by the Err == nil edge and by the success edge of the *ArrayData type test", Run: func(c *C) {
-	hs := c.connHandlers()
-	parsed := c.P.NamedType("resp", "ParsedRes")
-	arr := c.P.NamedType("resp", "ArrayData")
-	if parsed == nil || arr == nil {
-		c.Undecided("R12c", "anchors resp.ParsedRes / resp.ArrayData")
-		return
-	}
-	for _, fn := range hs {
-		var sel *ssa.Select
-		for _, b := range fn.Blocks {
-			for _, in := range b.Instrs {
-				if s, ok := in.(*ssa.Select); ok && sel == nil {
-					sel = s
+// helperScope: fn and the first-party functions of its package it calls, to the given depth.
+func helperScope(fn *ssa.Function, depth int) []*ssa.Function {
+	seen := map[*ssa.Function]bool{fn: true}
+	out := []*ssa.Function{fn}
+	frontier := []*ssa.Function{fn}
+	for d := 0; d < depth; d++ {
+		var next []*ssa.Function
+		for _, f := range frontier {
+			for _, b := range f.Blocks {
+				for _, in := range b.Instrs {
+					if ci, ok := in.(ssa.CallInstruction); ok {
+						if _, isGo := in.(*ssa.Go); isGo {
+							continue
+						}
+						if cf := callee(ci); cf != nil && firstParty(cf) && pkgRel(cf) == pkgRel(fn) && !seen[cf] && cf.Blocks != nil {
+							seen[cf] = true
+							out = append(out, cf)
+							next = append(next, cf)
+						}
+					}
 				}
 			}
 		}
-		if sel == nil {
-			continue
+		frontier = next
+	}
+	return out
+}
+
+// derivesFromCall: the value derives (through phis, extracts, first-party helper returns and the command filter)
+// from a call to target.
+func derivesFromCall(v ssa.Value, target *ssa.Function, depth int) bool {
+	if depth > 4 {
+		return false
+	}
+	found := false
+	backslice(v, func(x ssa.Value) bool {
+		if found {
+			return false
 		}
-		isErrField := func(v ssa.Value) bool { return isFieldLoad(v, parsed, "Err") }
-		edgeGen := func(from, to *ssa.BasicBlock, s Set) Set {
-			cond, neg, ok := branchCond(from, to)
-			if !ok {
-				return s
+		call, ok := x.(*ssa.Call)
+		if !ok {
+			if ex, isEx := x.(*ssa.Extract); isEx {
+				if c2, isC := ex.Tuple.(*ssa.Call); isC {
+					if cf := c2.Call.StaticCallee(); cf != nil && cf != target && firstParty(cf) && cf.Blocks != nil && callName(c2) != "Filter" {
+						for _, b := range cf.Blocks {
+							for _, in := range b.Instrs {
+								if ret, isRet := in.(*ssa.Return); isRet && ex.Index < len(ret.Results) {
+									if derivesFromCall(ret.Results[ex.Index], target, depth+1) {
+										found = true
+									}
+								}
+							}
+						}
+						return false
+					}
+				}
 			}
-			if bo, ok := cond.(*ssa.BinOp); ok && (bo.Op == token.NEQ || bo.Op == token.EQL) {
+			return true
+		}
+		cf := call.Call.StaticCallee()
+		if cf == target {
+			found = true
+			return false
+		}
+		if callName(call) == "Filter" {
+			return true // the filter hands the command through
+		}
+		if cf != nil && firstParty(cf) && cf.Blocks != nil {
+			for _, b := range cf.Blocks {
+				for _, in := range b.Instrs {
+					if ret, isRet := in.(*ssa.Return); isRet && len(ret.Results) > 0 {
+						if derivesFromCall(ret.Results[0], target, depth+1) {
+							found = true
+						}
+					}
+				}
+			}
+		}
+		return false
+	})
+	return found
+}
+
+// R12 (connection-loop part): a protocol error closes the connection without executing anything; only arrays reach dispatch.
+var rR12c = RuleRef{Name: "R12c", Doc: "connection loops: every argument vector that reaches a dispatch point (executor dispatch, proposal) derives from (*ArrayData).ToCommand, i.e. from a well-formed array; in the function that tests the parser's error, the error edge reaches neither command extraction nor a dispatch point; when that test is in the connection loop itself, the error branch returns (deferred conn.Close) and never starts another iteration", Run: func(c *C) {
+	hs := c.connHandlers()
+	parsed := c.P.NamedType("resp", "ParsedRes")
+	toCmd := c.P.Func("resp", "ArrayData.ToCommand")
+	if parsed == nil || toCmd == nil {
+		c.Undecided("R12c", "anchors resp.ParsedRes / (*ArrayData).ToCommand")
+		return
+	}
+	isDispatchCall := func(in ssa.Instruction) (ssa.Value, string) {
+		switch x := in.(type) {
+		case *ssa.Call:
+			if cf := callee(x); cf != nil && isDispatcherParent(c, cf) {
+				for _, a := range x.Call.Args {
+					if a.Type().String() == "[][]byte" {
+						return a, "call " + cf.Name()
+					}
+				}
+			}
+		case *ssa.Store:
+			if fa, ok := x.Addr.(*ssa.FieldAddr); ok && namedOf(fa.X.Type()) == "RaftProposal" && fieldName(fa) == "Data" {
+				return x.Val, "proposal"
+			}
+		}
+		return nil, ""
+	}
+	nd, nerr := 0, 0
+	for _, h := range hs {
+		scope := helperScope(h, 2)
+		for _, fn := range scope {
+			for _, b := range fn.Blocks {
+				for _, in := range b.Instrs {
+					if v, what := isDispatchCall(in); v != nil {
+						// a helper that receives the vector as a parameter is judged at its call sites in scope
+						if p, isP := v.(*ssa.Parameter); isP {
+							okAll, any := true, false
+							for _, g := range scope {
+								for _, bb := range g.Blocks {
+									for _, ii := range bb.Instrs {
+										if ci, ok := ii.(*ssa.Call); ok && callee(ci) == fn {
+											for i, prm := range fn.Params {
+												if prm == p && i < len(ci.Call.Args) {
+													any = true
+													if !derivesFromCall(ci.Call.Args[i], toCmd, 0) {
+														okAll = false
+													}
+												}
+											}
+										}
+									}
+								}
+							}
+							nd++
+							c.Add("R12c", fnName(fn), what+" receives a vector extracted from a well-formed array", in.Pos(), okAll && any, "the argument vector does not derive from ArrayData.ToCommand at some call site")
+							continue
+						}
+						nd++
+						c.Add("R12c", fnName(fn), what+" receives a vector extracted from a well-formed array", in.Pos(), derivesFromCall(v, toCmd, 0), "the argument vector does not derive from ArrayData.ToCommand")
+					}
+				}
+			}
+		}
+		// the function that tests ParsedRes.Err
+		for _, fn := range scope {
+			for _, b := range fn.Blocks {
+				if len(b.Instrs) == 0 {
+					continue
+				}
+				iff, ok := b.Instrs[len(b.Instrs)-1].(*ssa.If)
+				if !ok {
+					continue
+				}
+				bo, ok := iff.Cond.(*ssa.BinOp)
+				if !ok || (bo.Op != token.NEQ && bo.Op != token.EQL) {
+					continue
+				}
 				var x ssa.Value
 				if isNilConst(bo.Y) {
 					x = bo.X
 				} else if isNilConst(bo.X) {
 					x = bo.Y
 				}
-				if x != nil && isErrField(x) {
-					errNonNil := (bo.Op == token.NEQ) != neg
-					if errNonNil {
-						s["ERR"] = true
-					} else {
-						s["ERRNIL"] = true
-					}
-				}
-			}
-			// comma-ok type test to *ArrayData
-			if ex, ok := cond.(*ssa.Extract); ok && ex.Index == 1 && !neg {
-				if ta, ok := ex.Tuple.(*ssa.TypeAssert); ok && ta.CommaOk && isNamed(ta.AssertedType, arr) {
-					s["ISARRAY"] = true
-				}
-			}
-			return s
-		}
-		tr := func(in ssa.Instruction, s Set) (Set, bool) {
-			if noReturnCall(in) {
-				return nil, true
-			}
-			if in == ssa.Instruction(sel) {
-				return Set{}, false
-			}
-			return s, false
-		}
-		must := &Flow{Fn: fn, Must: true, Entry: Set{}, Transfer: tr, EdgeGen: edgeGen}
-		must.Run()
-		may := &Flow{Fn: fn, Must: false, Entry: Set{}, Transfer: tr, EdgeGen: edgeGen}
-		may.Run()
-		// dispatch points
-		nd := 0
-		for _, b := range fn.Blocks {
-			for _, in := range b.Instrs {
-				isDispatch, what := false, ""
-				switch x := in.(type) {
-				case *ssa.Call:
-					if cf := callee(x); cf != nil && firstParty(cf) {
-						for _, d := range c.Facts.Dispatchers {
-							if d.Parent() == cf {
-								isDispatch, what = true, "call "+cf.Name()
-							}
-						}
-					}
-				case *ssa.Send:
-					if ch, ok := x.Chan.Type().Underlying().(*types.Chan); ok {
-						if pt, ok := ch.Elem().(*types.Pointer); ok {
-							if n, ok := pt.Elem().(*types.Named); ok && n.Obj().Name() == "RaftProposal" {
-								isDispatch, what = true, "proposal send"
-							}
-						}
-					}
-				}
-				if !isDispatch {
+				if x == nil || !isFieldLoad(x, parsed, "Err") {
 					continue
 				}
-				nd++
-				s, live := must.Before(in)
-				ok := !live || (s["ERRNIL"] && s["ISARRAY"])
-				c.Add("R12c", fnName(fn), fmt.Sprintf("%s only for a well-formed array with no parser error", what), in.Pos(), ok, "facts on every path: "+strings.Join(s.Sorted(), " "))
+				nerr++
+				errSucc := b.Succs[0]
+				if bo.Op == token.EQL {
+					errSucc = b.Succs[1]
+				}
+				bad := false
+				if len(errSucc.Instrs) > 0 {
+					bad = reachesBefore(errSucc.Instrs[0], func(in ssa.Instruction) bool {
+						if ci, ok := in.(*ssa.Call); ok && callee(ci) == toCmd {
+							return true
+						}
+						v, _ := isDispatchCall(in)
+						return v != nil
+					}, func(in ssa.Instruction) bool {
+						_, isSel := in.(*ssa.Select)
+						return isSel
+					})
+				}
+				c.Add("R12c", fnName(fn), "the parser-error edge reaches neither command extraction nor dispatch", iff.Pos(), !bad, "after a protocol error nothing of the malformed input may be executed")
+				if fn == h {
+					// the loop itself tests the error: the branch must leave the loop
+					cont := false
+					if len(errSucc.Instrs) > 0 {
+						cont = reachesBefore(errSucc.Instrs[0], func(in ssa.Instruction) bool {
+							_, isSel := in.(*ssa.Select)
+							return isSel
+						}, nil)
+					}
+					c.Add("R12c", fnName(h), "parser error closes the connection (no further iteration)", iff.Pos(), !cont, "a path from the Err != nil branch reaches the next select")
+				}
 			}
 		}
-		c.Count("R12c_dispatch_points", nd)
-		// the error branch never starts another iteration
-		s, live := may.Before(sel)
-		c.Add("R12c", fnName(fn), "parser error closes the connection (no further iteration)", fn.Pos(), !live || !s["ERR"], "a path from the Err != nil branch reaches the next select")
 	}
+	c.Count("R12c_dispatch_points", nd)
+	c.Count("R12c_error_tests", nerr)
 	c.Min("R12c_dispatch_points", 3)
+	c.Min("R12c_error_tests", 2)
 }}
+
+func isConnLoad(a ssa.Value, conn ssa.Value) bool {
+	if u, ok := a.(*ssa.UnOp); ok {
+		if al, ok := u.X.(*ssa.Alloc); ok {
+			return singleStore(al) == conn
+		}
+	}
+	return false
+}
+
+func isDispatcherParent(c *C, fn *ssa.Function) bool {
+	for _, d := range c.Facts.Dispatchers {
+		if d.Parent() == fn {
+			return true
+		}
+	}
+	return false
+}
